@@ -98,13 +98,19 @@ def handle (op : String) (args : List String) : String :=
       | .error (.panic site) => toks ++ " !panic " ++ site
       | .error .outOfFuel => toks ++ " !model-out-of-fuel"
     | _, _, _ => "bad-request"
-  | "C10.fmt", [tgt, kind, bitsHex, disp] =>
-    match Model.LitFormat.Kind.ofName kind, parseHexNat bitsHex with
-    | some k, some bits =>
-      match Model.LitFormat.fmtLiteral k (tgt == "msl") bits disp.toUTF8.toList with
+  | "C10.fmt", tgt :: kind :: bitsHex :: disp :: more =>
+    -- `more` = the `Display` of the value as a double: present for the single-precision kinds (`Float16`, `Float32`)
+    let d64 : Option String := match more with
+      | [] => if kind == "Float16" || kind == "Float32" then none else some ""
+      | [d] => some d
+      | _ => none
+    match Model.LitFormat.Kind.ofName kind, parseHexNat bitsHex, d64 with
+    | some k, some bits, some disp64 =>
+      match Model.LitFormat.fmtLiteral k (tgt == "msl") bits disp.toUTF8.toList disp64.toUTF8.toList with
       | .ok t => String.ofList (t.map fun b => Char.ofNat b.toNat)
-      | .error e => "!" ++ e
-    | _, _ => "bad-request"
+      | .error e => if e.startsWith "unsupported" then e else "!" ++ e
+    | some _, some _, none => "unsupported: the Display of the value as a double is missing"
+    | _, _, _ => "bad-request"
   | "C10.loc", [files, raws] =>
     match parseFiles files, sequenceOpt ((if raws == "" then [] else raws.splitOn ",").map String.toNat?) with
     | some sm, some locs => ",".intercalate (locs.map (showLoc sm))
